@@ -1,0 +1,46 @@
+//go:build verif
+
+package traceroute
+
+import (
+	"context"
+	"net/netip"
+
+	"github.com/DataDog/datadog-traceroute/publicip"
+	"github.com/DataDog/datadog-traceroute/result"
+)
+
+// VerifRunOnceFn mirrors runTracerouteOnceFnType.
+type VerifRunOnceFn func(ctx context.Context, params TracerouteParams, destinationPort int) (*result.TracerouteRun, error)
+
+// VerifSetRunOnce replaces runTracerouteOnceFn (nil restores the real one).
+func VerifSetRunOnce(fn VerifRunOnceFn) {
+	if fn == nil {
+		runTracerouteOnceFn = runTracerouteOnce
+		return
+	}
+	runTracerouteOnceFn = runTracerouteOnceFnType(fn)
+}
+
+// VerifRunOnce calls the real runTracerouteOnce.
+func VerifRunOnce(ctx context.Context, params TracerouteParams, destinationPort int) (*result.TracerouteRun, error) {
+	return runTracerouteOnce(ctx, params, destinationPort)
+}
+
+// VerifE2eProbeOnce calls the real runE2eProbeOnce.
+func VerifE2eProbeOnce(ctx context.Context, params TracerouteParams, destinationPort int) (float64, error) {
+	return runE2eProbeOnce(ctx, params, destinationPort)
+}
+
+// VerifPerformTCPFallback calls the real performTCPFallback.
+func VerifPerformTCPFallback(m TCPMethod, doSyn, doSack, doSynSocket func() (*result.TracerouteRun, error)) (*result.TracerouteRun, error) {
+	return performTCPFallback(m, doSyn, doSack, doSynSocket)
+}
+
+// VerifParseTarget calls the real parseTarget.
+func VerifParseTarget(raw string, defaultPort int, wantIPv6 bool) (netip.AddrPort, error) {
+	return parseTarget(raw, defaultPort, wantIPv6)
+}
+
+// VerifNewTraceroute builds a Traceroute with a given public IP fetcher.
+func VerifNewTraceroute(f publicip.Fetcher) *Traceroute { return &Traceroute{publicIPFetcher: f} }
